@@ -84,6 +84,10 @@ class CallMixin(object):
       return [(st, VCtxMgr(finfo, args, kwargs, closure))]
     if _has_yield(finfo.node):
       raise Unsupported('generator function %s (needs a contract)' % finfo.qualname)
+    for d in finfo.decorators:
+      if d not in ('property', 'staticmethod', 'classmethod', 'abc.abstractmethod', 'abc.abstractproperty',
+                   'contextlib.contextmanager', 'functools.cached_property') and not d.endswith('.setter'):
+        self.ctx.use_trusted('decorator ignored: @%s' % d.split('(')[0])
     if len(self.call_stack) >= MAX_INLINE_DEPTH or self.call_stack.count(finfo) >= 2:
       raise Unsupported('inline depth / recursion at %s' % finfo.qualname)
     self.ctx.inlined.add('%s::%s' % (finfo.module.name if finfo.module else '?', finfo.qualname))
